@@ -25,7 +25,7 @@ CHECKS = {
    design="5/C20"),
 
  "C11": dict(
-   text="Bounded model checking of the real commonerrors constructors and (de)serialisation: for each of the 30 kinds, messages of 0..1 (thorough 2) fully symbolic bytes optionally followed by another kind's name, constructor chains of depth 1..2 (3), cancellation/deadline causes (plain and pre-converted), joins of 1..2 (3) errors, and the filesystem error converter on 23 backend conditions (plain and wrapped): z3 decides that Any/errors.Is recognise the kind, that a context cause is never reclassified, that Deserialise(Serialise(e)) keeps the kind(s) and -- outside the recorded known-finding region (nested %w target) -- the reason up to whitespace around colons.",
+   text="Bounded model checking of the real commonerrors constructors and (de)serialisation: for each of the 30 kinds, messages of 0..1 (thorough 2) fully symbolic bytes optionally followed by another kind's name, constructor chains of depth 1..2 (3), cancellation/deadline causes (plain, pre-converted, and already wrapped one level), joins of 1..3 errors, and the filesystem error converter on 23 backend conditions (plain and wrapped): z3 decides that Any/errors.Is recognise the kind, that a context cause is never reclassified, that Deserialise(Serialise(e)) keeps the kind(s) and -- outside the recorded known-finding region (nested %w target) -- the reason up to whitespace around colons.",
    note="fmt.Errorf/Sprintf and errors.Is/As are engine models that build the same *fmt.wrapError structures and call the interpreted Is/Unwrap/Error methods. The filesystem converter is covered here (one stable kind per backend condition, idempotent), the I/O converter by C09; the process error converter is not covered.",
    technique="symbolic execution of go/ssa + SMT (QF_BV) over symbolic strings, native replay",
    design="5/C11"),
@@ -36,7 +36,7 @@ CHECKS = {
    design="5/C14"),
 
  "C02": dict(
-   text="Two bounded model-checking harnesses over the real code. (1) Kernel: sanitiseZipExtractPath (with the real filepath.Join/Clean and strings code) on an entry name of 0..4 (thorough 6) FULLY symbolic bytes against 8 destination shapes: z3 decides that every accepted name resolves -- by an independent naive component-stack resolution -- inside the destination, that the returned path is that resolved location, that rejections carry the 'malicious' kind, and (completeness) that legal names are accepted outside two recorded known-finding regions. (2) Call sites: the real unzip over real archives (archive/zip writer and reader interpreted) of 1..2 entries named over a small alphabet, optionally with a nested archive in recursive mode, on afero's real MemMapFs behind a recording wrapper: every mutating backend operation targets the destination or below, nothing outside changes, escaping entries are refused as malicious, handles are balanced.",
+   text="Two bounded model-checking harnesses over the real code. (1) Kernel: sanitiseZipExtractPath (with the real filepath.Join/Clean and strings code) on an entry name of 0..4 (thorough 6) FULLY symbolic bytes against 8 destination shapes: z3 decides that every accepted name resolves -- by an independent naive component-stack resolution -- inside the destination, that the returned path is that resolved location, that rejections carry the 'malicious' kind, and (completeness) that legal names are accepted outside two recorded known-finding regions. (2) Call sites: the real unzip over real archives (archive/zip writer and reader interpreted) of 1..2 entries named over a small alphabet, optionally with a nested archive (whose own name also ranges over the alphabet) in recursive mode, next to a sibling directory whose name extends the destination's, destination given with or without a trailing separator, on afero's real MemMapFs behind a recording wrapper: every mutating backend operation targets the destination or below, nothing outside changes, escaping entries are refused as malicious, handles are balanced.",
    note="Lexical path semantics on Linux separators; names that are not valid UTF-8 are covered up to the sanitiser but the charset detection/transcoding applied afterwards is outside (chardet statistics not encodable); symbolic links in the destination tree and the OS-backed filesystem are outside.",
    technique="symbolic execution of go/ssa + SMT (QF_BV) over symbolic byte strings; bounded enumeration for the call-site harness; native replay",
    design="5/C02"),
@@ -47,13 +47,13 @@ CHECKS = {
    design="5/C03"),
 
  "C01": dict(
-   text="Bounded exploration of the real lock protocol (TryLock, Unlock, ReleaseIfStale/IsStale, the Rm/Exists/IsEmpty/CleanDir code beneath, real retry-go and context, heartbeat goroutines on a virtual clock) over a shared POSIX-style harness filesystem with atomic Mkdir, 3 contenders: sequential acquire/release histories (at most one holder, free lock acquired, held lock reported locked); one contender's complete acquire placed inside another's release before its k-th filesystem operation for EVERY k, followed by a third contender's acquire (no two holders; a release never destroys a later lock); the same inside a stale-lock takeover with override; no mutation by a failed acquire without override. Two known-finding regions are recorded and everything outside them is shown to hold.",
+   text="Bounded exploration of the real lock protocol (TryLock, Unlock, ReleaseIfStale/IsStale, the Rm/Exists/IsEmpty/CleanDir code beneath, real retry-go and context, heartbeat goroutines on a virtual clock) over a shared POSIX-style harness filesystem with atomic Mkdir, 3 contenders: sequential acquire/release histories (at most one holder, free lock acquired, held lock reported locked); one contender's complete acquire placed inside another's release before its k-th filesystem operation for EVERY k, followed by a third contender's acquire (no two holders; a release never destroys a later lock); the same inside a stale-lock takeover with override; no mutation by a failed acquire without override, nor by a failed BLOCKING acquire (LockWithTimeout against a held lock); a live holder's lock survives the k-th backend operation of a contender failing. Two known-finding regions are recorded and everything outside them is shown to hold.",
    note="Interleavings are limited to one preemption with an atomic interferer (natively replayable as a plain test); the harness filesystem's atomic Mkdir is the stated assumption about the backend. Not multi-process, not the OS filesystem.",
    technique="symbolic execution of go/ssa with DFS over interference positions (bounded model checking of the protocol), native replay",
    design="5/C01"),
  "C04": dict(
-   text="Bounded exhaustive exploration of Rm / RemoveWithContext / CleanDirWithContext (real code incl. Exists/IsDir/IsEmpty/Ls) over EVERY tree of the shape /s/t/{a,b}[/x] whose entries are absent, files, read-only files, directories or symbolic links to an outside directory, an outside file, a nested outside directory, the tree root (loop) or nothing (dangling), on a harness filesystem with POSIX link semantics: nothing outside the tree changes; success means the tree (for CleanDir its content) is gone, dangling links included; handles balanced. Two known-finding regions (links followed into outside directories; links surviving a 'successful' removal) are recorded; outside them the assertions hold.",
-   note="The POSIX link semantics is that of the harness filesystem vLinkFs (ELOOP after 3 hops); garbage collection and pattern-protected removal with links are outside.",
+   text="Bounded exhaustive exploration of Rm / RemoveWithContext / CleanDirWithContext (real code incl. Exists/IsDir/IsEmpty/Ls) over EVERY tree of the shape /s/t/{a,b}[/x] whose entries are absent, files, read-only files, directories or symbolic links to an outside directory, an outside file, a nested outside directory, the tree root (loop) or nothing (dangling), on a harness filesystem with POSIX link semantics: nothing outside the tree changes; success means the tree (for CleanDir its content) is gone, dangling links included; handles balanced; siblings whose names extend the tree's name are untouched; with the k-th removal refused by the backend (k<=7) success is still only reported when the tree is gone; GarbageCollect of roots with up to two sub-directories and two thresholds removes exactly the old entries and never the root itself. Two known-finding regions (links followed into outside directories; links surviving a 'successful' removal) are recorded; outside them the assertions hold.",
+   note="The POSIX link semantics is that of the harness filesystem vLinkFs (ELOOP after 3 hops); garbage collection is explored on the in-memory backend without links; pattern-protected removal with links is outside.",
    technique="symbolic execution of go/ssa with DFS over tree shapes (bounded model checking), native replay",
    design="5/C04"),
  "C07": dict(
@@ -62,34 +62,34 @@ CHECKS = {
    technique="symbolic execution of go/ssa (real archive/zip, flate, zipfs) with DFS over tree shapes, native replay",
    design="5/C07"),
  "C08": dict(
-   text="Bounded exhaustive exploration of every exclusion-aware operation (walk, ls, recursive ls, tree listing, sub-directories, copy, clean, remove; real regexp package interpreted) over EVERY tree of depth <= 2 on names {a,b} (thorough {a,b,ab}) and 0..1 (2) patterns from {a,b,ab,a.*,.*b,[ab]}, against the statement's two-sided reference (full match of a component => protected with everything beneath; no component containing a match => must be processed); invalid patterns rejected with the 'invalid' kind before anything is touched. Known-finding regions: protection lost at depth >= 2 in clean/remove; invalid pattern ignored on an empty directory.",
+   text="Bounded exhaustive exploration of every exclusion-aware operation (walk, ls, recursive ls, tree listing, sub-directories, copy, clean, remove; real regexp package interpreted) over EVERY tree of depth <= 2 on names {a,b} (thorough {a,b,ab}) and 0..1 (2) patterns from {a,b,ab,a.*,.*b,[ab],a.b,b.a} (the last two could only match across a path separator), against the statement's two-sided reference (full match of a component => protected with everything beneath; no component containing a match => must be processed); invalid patterns rejected with the 'invalid' kind before anything is touched; pattern pairs with inline flags or unbalanced groups behave as the two patterns separately (no leakage between patterns). Known-finding regions: protection lost at depth >= 2 in clean/remove; invalid pattern ignored on an empty directory.",
    note="Zip with exclusions and patterns beyond the fixed set are outside; in-memory backend only.",
    technique="symbolic execution of go/ssa with DFS over trees x patterns x operations (bounded model checking), native replay",
    design="5/C08"),
  "C09": dict(
-   text="(1) safeio.ReadAtMost / CopyDataWithContext / CopyNWithContext with the real io, bytes.Buffer and contextio code: source of 0..3 (thorough 4) FULLY symbolic bytes, every chunking (incl. a zero-length read), failure after k bytes, cancellation before the call or inside the j-th Read, failing/short writer, every max/n in [-1,L+1]: delivered bytes are an exact prefix, success delivers exactly min(L,max), CopyN transfers exactly n or errors, no Read after the context ended, no spurious failure, kinds cancelled/EOF. (2) 22 context-accepting filesystem entry points with an already cancelled / expired context: the right kind, zero mutating backend operations, unchanged tree, balanced handles. (3) 11 of them with the context cancelled after the j-th backend operation (j in 1..12) over 8 (12) files: at most 40 further backend operations whatever remains. (4) limited file reads refuse larger files as 'too large'.",
+   text="(1) safeio.ReadAtMost / CopyDataWithContext / CopyNWithContext with the real io, bytes.Buffer and contextio code: source of 0..3 (thorough 4) FULLY symbolic bytes, every chunking (incl. a zero-length read), failure after k bytes, cancellation before the call or inside the j-th Read, failing/short writer, every max/n in [-1,L+1]: delivered bytes are an exact prefix, success delivers exactly min(L,max), CopyN transfers exactly n or errors, no Read after the context ended, no spurious failure, kinds cancelled/EOF. (2) 23 context-accepting filesystem entry points with an already cancelled / expired context: the right kind, zero mutating backend operations, unchanged tree, balanced handles. (3) 12 of them (incl. unzip of an archive of 32 (48) consecutive directory entries) with the context cancelled after the j-th backend operation (j in 1..12) over 8 (12) files: at most 40 further backend operations whatever remains. (4) limited file reads refuse larger files as 'too large'.",
    note="Lengths up to 2^20 and real buffer boundaries, WriterTo/ReaderFrom fast paths and the OS filesystem are outside. One genuine defect (CopyToDirectoryWithContext) was found here and fixed.",
    technique="symbolic execution of go/ssa + SMT (QF_BV) on symbolic byte streams; DFS over scripts and entry points; native replay",
    design="5/C09"),
  "C17": dict(
-   text="Bounded exploration of IsStale / areHeartBeatFilesAllStale / isStale / ReleaseIfStale / TryLock(override) and the real heartBeat goroutine on a virtual clock: while the holder lives, 1..3 (thorough 5) observations at instants up to ~33 periods never see the lock stale, never release or take it over; a holder dying at each of four points is reported stale after 2 periods + 2 ms and ReleaseIfStale + acquire then succeed; at the boundary (ages 0..500 ms of the last sign of life, heartbeat file present or not, directory age irrelevant) stale implies age > 2 periods and age >= 2 periods + 1 ms implies stale; a failing backend never makes a lock look stale.",
-   note="Virtual time: filesystem and scheduling latency are zero, so 'live lock never stale' is claimed for an ideal scheduler only.",
+   text="Bounded exploration of IsStale / areHeartBeatFilesAllStale / isStale / ReleaseIfStale / TryLock(override) and the real heartBeat goroutine on a virtual clock: while the holder lives, 1..3 (thorough 5) observations at instants up to ~33 periods never see the lock stale, never release or take it over; a holder dying at each of four points is reported stale after 2 periods + 2 ms and ReleaseIfStale + acquire then succeed; at the boundary (ages 0..500 ms of the last sign of life, heartbeat file present or not, directory age irrelevant) stale implies age > 2 periods and age >= 2 periods + 1 ms implies stale; a failing backend -- every operation, or any single one (k<=14) -- never makes a lock look stale; with every backend operation taking 1 or 3 ms of virtual time a live lock held for 25 (60) periods never looks stale; one transient failure of the heartbeat writer (k<=24) does not end the heartbeat.",
+   note="Virtual time: scheduling latency is zero and filesystem latency is the injected 0/1/3 ms per operation, so 'live lock never stale' is claimed for an ideal scheduler only.",
    technique="symbolic execution of go/ssa on a cooperative scheduler with a virtual clock (bounded model checking), native replay",
    design="5/C17"),
 
  "C12": dict(
-   text="Bounded model checking over SCHEDULES of the real RunActionWithTimeout, RunActionWithTimeoutAndContext/CancelStore (with the real context package), Parallelise and CancelFunctionStore on the engine's cooperative scheduler: every interleaving with at most 2 preemptions (1 for the context runner in the quick tier) at channel/select/lock/atomic/timer operations, both outcomes of selects with several ready cases, timers allowed to fire at any channel operation, action completing at {0,T-1,T,T+1,5T}, failing or not, honouring its stop signal at once or late, parent context live/cancelled before/during: the runner always returns (deadlock = violation), returns the action's own result or the timeout/cancelled kind only once the action saw its stop signal, the action's context is done on every exit; Parallelise invokes once per argument and returns the multiset or an invocation error; a Cancel invokes every function registered before it began. One known-finding region (RunActionWithTimeout blocks when the timer case is taken after the action finished) is recorded.",
+   text="Bounded model checking over SCHEDULES of the real RunActionWithTimeout, RunActionWithTimeoutAndContext/CancelStore (with the real context package), Parallelise and CancelFunctionStore on the engine's cooperative scheduler: every interleaving with at most 2 preemptions (1 for the context runner in the quick tier) at channel/select/lock/atomic/timer operations, both outcomes of selects with several ready cases, timers allowed to fire at any channel operation, action completing at {0,T-1,T,T+1,5T}, failing or not, honouring its stop signal at once or late, parent context live/cancelled before/during: the runner always returns (deadlock = violation), returns the action's own result or the timeout/cancelled kind only once the action saw its stop signal, the action's context is done on every exit; Parallelise invokes once per argument and returns the multiset or an invocation error; a Cancel invokes every function registered before it began; a store cancelled from outside while the action is in flight is reported as a cancellation; with every heap load/store a scheduling point, two concurrent registrations are both kept. One known-finding region (RunActionWithTimeout blocks when the timer case is taken after the action finished) is recorded.",
    note="Schedules are decision sequences of the engine (re-executable deterministically) but not natively replayable; sequentially consistent memory; real timer latency outside.",
    technique="symbolic execution of go/ssa on a cooperative scheduler, DFS over scheduling decisions with a preemption bound (bounded model checking)",
    design="5/C12"),
  "C13": dict(
-   text="Bounded model checking over SCHEDULES of the library's own sinks and composites: the plain string logger (StringWriter through the real log.Logger) with two producers on the same or on the output and error streams, NewCombinedLoggers with Log || LogError and Log || Append: every interleaving with at most 2 preemptions at lock/atomic/channel operations and INSIDE every strings.Builder append and member append (modelled as non-atomic read-modify-write): every message reaches the sink exactly once and intact, composites deliver every message to every member exactly once. The check found the RLock-for-a-write defect of StringWriter, which is fixed.",
+   text="Bounded model checking over SCHEDULES of the library's own sinks and composites: the plain string logger (StringWriter through the real log.Logger) with two producers on the same or on the output and error streams, NewCombinedLoggers with Log || LogError, Log || Append and Append || Append, and a composite built from a caller-owned slice that the caller appends to afterwards: every interleaving with at most 2 preemptions at lock/atomic/channel operations and INSIDE every strings.Builder append and member append (modelled as non-atomic read-modify-write): every message reaches the sink exactly once and intact, composites deliver every message to every member exactly once, every appended member is kept, the composite owns its member list. The check found the RLock-for-a-write defect of StringWriter, which is fixed.",
    note="Third-party adapters (zap, logrus, hclog, slog, logr, diode ring buffer, file/JSON loggers) are not encoded; memory is sequentially consistent; not natively replayable.",
    technique="symbolic execution of go/ssa on a cooperative scheduler, DFS over scheduling decisions with a preemption bound (bounded model checking)",
    design="5/C13"),
 
  "C06": dict(
-   text="Bounded exhaustive exploration of programs of 1 (thorough 1..2) filesystem-API calls -- MkDir, WriteFile, Rm, CleanDir, TouchTempFile, Copy, CopyToDirectory, Move, IsDir, Exists, Ls, ReadFile -- over the path alphabet {/a, /a/b, /a/b/c, /d, /d/e} from 5 initial trees (so that source = / parent of / inside the destination, missing/existing entries and file-versus-directory conflicts occur), real code on afero's real MemMapFs behind a recording wrapper: every call terminates (<= 400 backend operations), leaves no handle open, changes nothing but its destination (plus newly created ancestor directories; for Move also the source), a copy leaves its source untouched, query calls change nothing and answer exactly what the tree says. Three known-finding regions are recorded (copy into own subtree diverges; move into own subtree crashes the in-memory backend; entries created beneath a file on the in-memory backend).",
+   text="Bounded exhaustive exploration of programs of 1 (thorough 1..2) filesystem-API calls -- MkDir, WriteFile, Rm, CleanDir, TouchTempFile, Copy, CopyToDirectory, Move, IsDir, Exists, Ls, ReadFile -- over the path alphabet {/a, /a/b, /a/b/c, /d, /d/e} from 5 initial trees (so that source = / parent of / inside the destination, missing/existing entries and file-versus-directory conflicts occur), real code on afero's real MemMapFs behind a recording wrapper: every call terminates (<= 400 backend operations), leaves no handle open, changes nothing but its destination (plus newly created ancestor directories; for Move also the source), a copy leaves its source untouched (contents, permissions and modification times), query calls change nothing and answer exactly what the tree says. Under faults (the k-th backend operation of a copy / write / read / listing / file move / directory move fails, rename possible or not): no handle stays open, the source of a copy is untouched, a move never loses a file (every source file is still at the source or has arrived at the destination). Six known-finding regions are recorded (copy into own subtree diverges; move into own subtree crashes the in-memory backend; entries created beneath a file on the in-memory backend; that backend left inconsistent after a conflicting call; copy of a file onto itself re-stamps it; the directory-move fallback deletes a source it could not read).",
    note="Only the second sentence of the property is claimed (plus exact answers of the query calls): agreement of return values and resulting trees with a reference model of cp -r / mv on BOTH backends is not claimed -- the OS backend cannot be executed symbolically and the doc comments leave Copy's destination resolution open.",
    technique="symbolic execution of go/ssa with DFS over programs x paths x initial trees (bounded model checking), native replay",
    design="5/C06"),
